@@ -46,6 +46,8 @@ var ErrClosed = errors.New("fakemc: connection closed by backend")
 type Conn struct {
 	S    *Store
 	Name string
+	// Local is what LocalAddr reports (the proxy's own ephemeral address).
+	Local string
 
 	mu   sync.Mutex
 	cond *sync.Cond
@@ -287,7 +289,12 @@ type addr string
 func (a addr) Network() string { return "fake" }
 func (a addr) String() string  { return string(a) }
 
-func (c *Conn) LocalAddr() net.Addr                { return addr("local") }
+func (c *Conn) LocalAddr() net.Addr {
+	if c.Local != "" {
+		return addr(c.Local)
+	}
+	return addr("local")
+}
 func (c *Conn) RemoteAddr() net.Addr               { return addr(c.Name) }
 func (c *Conn) SetDeadline(t time.Time) error      { return nil }
 func (c *Conn) SetReadDeadline(t time.Time) error  { return nil }
